@@ -143,9 +143,27 @@ def mixed_poll_case(rng):
     return conn_case(B, 1, [(0, 0, w)], [ops], C07.io_script(rng, 200, "r"), ws, rng.choice([0, 1])), ["peer", "mixed-poll"]
 
 
+_spec10 = importlib.util.spec_from_file_location("c10", os.path.join(os.path.dirname(__file__), "C10.py"))
+C10 = importlib.util.module_from_spec(_spec10)
+_spec10.loader.exec_module(C10)
+
+
+def concurrent_writers_case(rng):
+    """a handler that reads and writes CONCURRENTLY (several StreamWriters and the request's read side polled in one task, any order)
+    while a management query is pending: the reply owed must be flushed although the output lock is contended - the harness repeats the
+    case under a wake-driven schedule, where a participant is polled again only after its own waker fired (lost wake-ups show as a
+    suspended participant nobody will wake)"""
+    while True:
+        c, t = C10.one(rng)
+        if "query" in t and ("w2" in t or "w3" in t):
+            return c, ["peer", "query", "concurrent-writers"]
+
+
 def gen_cases(rng, tier):
     for _ in range(1500 if tier == "quick" else 80000):
         yield one(rng)
+    for _ in range(150 if tier == "quick" else 6000):
+        yield concurrent_writers_case(rng)
     for _ in range(400 if tier == "quick" else 20000):
         yield mixed_poll_case(rng)
     for _ in range(6 if tier == "quick" else 60):
@@ -157,7 +175,7 @@ def nontrivial(line, tags):
 
 
 def min_classes(tier):
-    return {"before-first": 150, "after-params": 150, "mid-stream": 150, "same-segment-as-end": 150, "between": 100, "inside-params-glued": 100, "abandoned-read-then-write": 6, "mixed-poll": 400}
+    return {"before-first": 150, "after-params": 150, "mid-stream": 150, "same-segment-as-end": 150, "between": 100, "inside-params-glued": 100, "concurrent-writers": 150, "abandoned-read-then-write": 6, "mixed-poll": 400}
 
 
 def signature(line, impl_line):
@@ -178,6 +196,10 @@ def signature(line, impl_line):
 
 
 def oracle(line, impl_line):
+    if line.startswith("writers "):
+        v = C10.oracle(line, impl_line)
+        return ("a participant of the handler (a writer, or the request's read side owing a management reply) stayed suspended with nobody "
+                "left to wake it, or the run panicked") if v == "crashed or panicked" else v
     o = parse_out(impl_line)
     if o is None or o[0] == [18446744073710440504]:
         return "connection task crashed or panicked"
